@@ -170,7 +170,13 @@ impl Oplog {
                         get_slices_checked(&existing, OplogSlot::Entries as usize)?.1;
                     let mut entries: Vec<Entry> = Vec::new();
                     let mut partials: Vec<bool> = Vec::new();
+                    let header_bit = outcome.oplog.get_current_header_bit();
                     while let Some(entry_outcome) = Self::validate_leader(entries_buff)? {
+                        if entry_outcome.header_bit != header_bit {
+                            // Written before the current header was flushed, and already
+                            // folded into it: not part of the log anymore.
+                            break;
+                        }
                         let res = Entry::decode(entry_outcome.state)?;
                         // New entries must be appended after the ones that are replayed
                         outcome.oplog.entries_length += 1;
